@@ -184,6 +184,14 @@ func (e *Env) eval(n *Node, hint *Sym) *Sym {
 	panic("cannot evaluate " + n.Op)
 }
 
+// rf reifies a pointer to a slice element so that it can be compared as a value.
+func (e *Env) rf(s *Sym) *Sym {
+	if s.LV != nil && s.LV.Root == RElem && kindOf(s.LV.RootT) == KStruct && dualTypes[typeName(s.LV.RootT)] {
+		return e.x.reify(s)
+	}
+	return s
+}
+
 func (e *Env) macro(name string) *LetDef {
 	if e.lets != nil {
 		if ld, ok := e.lets[name]; ok {
@@ -318,18 +326,24 @@ func (e *Env) binary(n *Node, hint *Sym) *Sym {
 		a = e.eval(n.Args[0], hint)
 		b = e.eval(n.Args[1], &Sym{T: types.Typ[types.Uint64], L: []*Term{mkBVu(0, 64)}})
 	case isLit(n.Args[0]) && !isLit(n.Args[1]):
-		b = e.eval(n.Args[1], hint)
+		b = e.rf(e.eval(n.Args[1], hint))
 		a = e.eval(n.Args[0], b)
 	case isLit(n.Args[0]) && isLit(n.Args[1]):
 		a = e.eval(n.Args[0], hint)
 		b = e.eval(n.Args[1], hint)
 	default:
-		a = e.eval(n.Args[0], hint)
-		b = e.eval(n.Args[1], a)
+		a = e.rf(e.eval(n.Args[0], hint))
+		b = e.rf(e.eval(n.Args[1], a))
 	}
 	switch op {
 	case "==", "!=":
 		var r *Term
+		if a.LV != nil && a.LV.Root == RElem {
+			a = e.x.reify(a)
+		}
+		if b.LV != nil && b.LV.Root == RElem {
+			b = e.x.reify(b)
+		}
 		if len(a.L) != len(b.L) {
 			// slice compared with nil literal etc.
 			if len(b.L) == 1 && b.L[0].Lit != nil && b.L[0].Lit.Sign() == 0 {
